@@ -1004,7 +1004,6 @@ where
     grid.clear();
     let mut unique: Vec<Vertex<T, U, D>> = Vec::with_capacity(vertices.len());
 
-    let epsilon_sq = epsilon * epsilon;
     for v in vertices {
         let coords = v.point().coords();
         let mut duplicate = false;
@@ -1012,12 +1011,7 @@ where
         let used_index = grid.for_each_candidate_vertex_key(coords, |idx| {
             candidate_count = candidate_count.saturating_add(1);
             let existing_coords = unique[idx].point().coords();
-            let mut dist_sq = T::zero();
-            for i in 0..D {
-                let diff = coords[i] - existing_coords[i];
-                dist_sq = dist_sq + diff * diff;
-            }
-            if dist_sq < epsilon_sq {
+            if coords_within_epsilon(coords, existing_coords, epsilon) {
                 duplicate = true;
                 return false;
             }
